@@ -14,6 +14,7 @@ import NV.C04.LemmasStack
 import NV.C04.MapBook
 import NV.C04.LemmasSave
 import NV.C04.LemmasLoop
+import NV.C04.Refill
 
 namespace NV.C04
 
@@ -120,18 +121,22 @@ example : (evaluate { maxCost := 5000, maxDepth := 4, stackSize := 1000, handler
     checked pushes of function locals and do_catch's single unchecked push).  With `StackSize ≥ 5` the height
     never exceeds `StackSize - 4`: `sp` stays at least 4 slots below the end of the allocation in every
     evaluation of every shape.  (Unchecked argument pushes are outside the machine: open finding of C01.) -/
-theorem stack_checked_pushes_bounded (cfg : Cfg) (fuel : Nat) (sh : Sh) (h5 : 5 ≤ cfg.stackSize) :
-    (evaluate cfg fuel sh).2.maxSp ≤ cfg.stackSize - 4 ∧ (evaluate cfg fuel sh).2.maxSp < cfg.stackSize := by
+theorem stack_checked_pushes_bounded (cfg : Cfg) (fuel : Nat) (sh : Sh) (h5 : stackSlack ≤ cfg.stackSize) :
+    (evaluate cfg fuel sh).2.maxSp ≤ cfg.stackSize - stackSlack + 1 ∧
+    (1 < stackSlack → (evaluate cfg fuel sh).2.maxSp < cfg.stackSize) := by
+  -- (stated relative to the regenerated slack of reset_interpreter: with `size - 5` this is `≤ StackSize - 4`)
   have hinv : StackInv cfg (St.start cfg) := by
     refine ⟨?_, ?_⟩
     · show (0 : Int) ≤ spEnd cfg
-      unfold spEnd stackSlack stackSlackSrc; omega
+      unfold spEnd; omega
     · show (0 : Int) ≤ spEnd cfg + 1
-      unfold spEnd stackSlack stackSlackSrc; omega
+      unfold spEnd; omega
   have h := (exec_StackRes cfg fuel .driver (.call 0 sh) (St.start cfg) hinv).1
-  unfold spEnd stackSlack stackSlackSrc at h
+  unfold spEnd at h
   unfold evaluate
-  constructor <;> omega
+  constructor
+  · omega
+  · intro h1; omega
 
 example : (evaluate { maxCost := 5000, maxDepth := 100, stackSize := 30, handlerCatches := false } 60
     (.catch_ (.recur 7))).2.maxSp = 21 := by decide
@@ -231,8 +236,9 @@ theorem map_count_exact (limit : Int) (hl : LimitOk limit) (ops : List MapOp) :
   -- round 4: the operations include `m *= m2` (compose_mapping); its `deleted` counter is wide enough for every
   -- limit a C int can hold (before fix 5334d17 it was 16 bits wide: Witness.compose_count_wraps_16)
   have hw : limit < 2 ^ composeDeletedBits := by
-    have : (2 : Int) ^ composeDeletedBits = 4294967296 := by decide
-    rw [this]; have := hl.2; omega
+    -- (any counter at least as wide as a C int holds every count a limit allows)
+    have h31 : (2 : Int) ^ 31 ≤ 2 ^ composeDeletedBits := by decide
+    have := hl.2; omega
   exact mapRun_ok limit ops _ ⟨rfl, by simpa using hl.1⟩ hw
 
 example : mapRun 20 [.insert true, .absorb 15, .absorb 10, .insert true, .insert false] { count := 0, nodes := 0 } =
@@ -266,8 +272,8 @@ theorem sizes_bounded_round4 (l : Int) (hl : LimitOk l) :
 theorem compose_count_exact (l : Int) (hl : LimitOk l) (c1 kept : Nat) (hc : (c1 : Int) ≤ l) :
     composeMapping c1 kept = .ok (min kept c1) := by
   apply composeMapping_exact
-  have : (2 : Nat) ^ composeDeletedBits = 4294967296 := by decide
-  rw [this]; have := hl.2; omega
+  have h31 : (2 : Nat) ^ 31 ≤ 2 ^ composeDeletedBits := by decide
+  have := hl.2; omega
 
 example : composeMapping 70000 0 = .ok 0 := by decide
 example : saveVariable (valZeros 48) 100 = .ok 100 ∧ saveVariable (valZeros 49) 100 = .err := by decide
@@ -295,10 +301,11 @@ theorem restore_depth_bounded (v : Val) :
   refine ⟨restoreReach_le v 0 (Nat.zero_le _), ?_, restoreWalk_eq v 0⟩
   rw [restoreWalk_eq v 0, h]; omega
 
-example : restoreWalk 0 (valNested 24) = true ∧ restoreWalk 0 (valNested 25) = false ∧ restoreReach 0 (valNested 300) = 26 := by decide
+example : restoreWalk 0 (valNested (maxSaveDepth - 1)) = true ∧ restoreWalk 0 (valNested maxSaveDepth) = false ∧
+    restoreReach 0 (valNested (maxSaveDepth + 275)) = maxSaveDepth + 1 := by decide
 
-example : (saveSize 0 (valNested 24)).isSome = true ∧ (saveSize 0 (valNested 25)).isSome = false ∧
-    saveReach 0 (valNested 40) = 25 := by decide
+example : (saveSize 0 (valNested (maxSaveDepth - 1))).isSome = true ∧ (saveSize 0 (valNested maxSaveDepth)).isSome = false ∧
+    saveReach 0 (valNested (maxSaveDepth + 15)) = maxSaveDepth := by decide
 
 /-- **loop_iterations_charged** (every backward jump, call and loop-efun callback costs at least one tick).  For every
     byte-code program, every sequence of branch decisions and every number of interpreter turns, started with a budget
@@ -331,14 +338,50 @@ theorem bridge_backwardOps :
     localCallOps = ["F_CALL_FUNCTION_BY_ADDRESS", "F_CALL_INHERITED"] ∧ fetchCharge = 1 ∧ callbackCharge = 1 :=
   ⟨rfl, rfl, rfl, rfl, rfl, fetchCharge_one, callbackCharge_one⟩
 
-/-- the constants of the value walks and of compose_mapping's counter -/
-theorem bridge_saveWalk : maxSaveDepth = 25 ∧ saveBoxOverhead = 5 ∧ composeDeletedBits = 32 ∧ restoreTopNesting = 2 := by decide
+/-- **regex_charge_bounded** (time of one regexp match): whatever the pattern and the string need (`steps` node visits, exponential
+    for backtracking patterns), regexec () makes at most `eval_cost * REGEXP_STEPS_PER_TICK` of them, never gives the evaluation
+    more ticks than it had, leaves at least one, and when the visits needed reach the budget exactly one - the next
+    instruction raises the error. -/
+theorem regex_charge_bounded (cost : Int) (steps : Nat) (h : 0 < cost) :
+    1 ≤ (regexCharge cost steps).1 ∧ (regexCharge cost steps).1 ≤ cost ∧
+    ((regexCharge cost steps).2 : Int) ≤ cost * regexpStepsPerTick ∧ (regexCharge cost steps).2 ≤ steps ∧
+    (1 < cost → (cost * regexpStepsPerTick).toNat ≤ steps → (regexCharge cost steps).1 = 1) := by
+  unfold regexCharge regexpStepsPerTick
+  simp only
+  by_cases hc : cost > 1
+  · simp only [hc, if_true]
+    refine ⟨?_, ?_, ?_, ?_, ?_⟩
+    · split <;> omega
+    · split <;> omega
+    · omega
+    · omega
+    · intro _ hs
+      rw [if_pos]
+      omega
+  · simp only [hc, if_false]
+    refine ⟨by omega, by omega, by omega, by omega, ?_⟩
+    intro h1
+    first | exact h1.elim | omega
+
+example : regexCharge 20000 (rxLower 60) = (1, 2000000) ∧ rxExpires 60 20000 = some true ∧ rxExpires 12 20000 = some false ∧
+    (regexCharge 20000 5000).1 = 19950 := by decide
+
+/-- **bridge_refills**: the statements of the current source that write eval_cost or the configured budget are exactly the
+    ones the rule table of Refill.lean justifies (file, function and statement), and the table is closed: a refill on expiry
+    stands with its tick test, an assignment of the budget with its clamp -/
+theorem bridge_refills : evalCostWrites = refillRules.map (·.site) ∧ refillTableOk = true := ⟨rfl, by decide⟩
+
+/-- what the model needs of the constants of the value walks and of compose_mapping's counter (not their values: a different
+    nesting limit or text overhead is followed by the model through NV/Gen; the restore pre-pass must start its inner calls at
+    level 2, the level after the outermost container) -/
+theorem bridge_saveWalk : 1 ≤ maxSaveDepth ∧ 1 ≤ saveBoxOverhead ∧ 31 ≤ composeDeletedBits ∧ restoreTopNesting = 2 := by decide
 
 /-! ### bridging lemmas: the literals of the model are the constants found in the source (NV/Gen/C04.lean is
     regenerated from the guard sites on every run; a changed constant breaks these obligations) -/
 
-/-- `end_of_stack = start_of_stack + size - 5` (src/stack.c) -/
-theorem bridge_stackSlack : stackSlack = (stackSlackSrc : Int) ∧ stackSlackSrc = 5 := ⟨rfl, by decide⟩
+/-- `end_of_stack = start_of_stack + size - 5` (src/stack.c): the model uses the regenerated slack; what the theorems need of it
+    is room for do_catch's one unchecked push and one slot to spare (`stack_checked_pushes_bounded`), not the value 5 -/
+theorem bridge_stackSlack : stackSlack = (stackSlackSrc : Int) ∧ 2 ≤ stackSlackSrc := ⟨rfl, by decide⟩
 
 /-- the three depth tests compare with `&control_stack[MAX_CALL_DEPTH - 1]`: the offset the model's `pushFrame`,
     `catch_` and `safe` use -/
